@@ -279,10 +279,15 @@ def observe_mutate(sc, _box=None):
     def cached_steps(steps, p=None, depth=0):
         if p is not None or depth != 0:
             return _steps(steps, p, depth)
-        key = json.dumps(steps)
-        if key not in built:
-            built[key] = _steps(steps)
-        return built[key]
+        # expressions are derived step by step from shared prefixes, as a user's `p = path.a[wc]; p.x; p.y` does:
+        # calls on `p.x` and `p.y` go through the very same parent expression object
+        cur, key = b.root, ""
+        for st in steps:
+            key += "|" + json.dumps(st)
+            if key not in built:
+                built[key] = b.step(cur, st, 0)
+            cur = built[key]
+        return cur
 
     b.steps = cached_steps
     env = DescrEnv(b)
@@ -395,8 +400,13 @@ def observe_mutate(sc, _box=None):
                     # index: Python would create / look up an int key, which no JSON document has
                     fin("skip", [], None, False)
                 elif k == "h.assign":
-                    m.data = val(op[2])
-                    fin("ok", [], None, False)
+                    v = val(op[2])
+                    m.data = v
+                    want = f"{m.path_as_str}={v}"       # "m.data / repr(m) reflect it" (the documented rendering)
+                    if repr(m) != want or str(m) != want:
+                        fin("repr", [repr(m)[:120], want[:120]], None, False)
+                    else:
+                        fin("ok", [], None, False)
                 elif k == "h.del":
                     del m.data
                     fin("ok", [], None, False)
@@ -407,7 +417,10 @@ def observe_mutate(sc, _box=None):
                         r = m.pop(val(op[2][1]))
                     fin("ok", [], r)
                 elif k == "h.data":
-                    fin("ok", [], m.data)
+                    if repr(m) != f"{m.path_as_str}={m.data}":
+                        fin("repr", [repr(m)[:120]], None, False)
+                    else:
+                        fin("ok", [], m.data)
             elif not observe_descr_op(env, doc, op, fin, views, iters):
                 raise ValueError(f"bad op {op!r}")
         except Exception as e:  # noqa
